@@ -3,6 +3,7 @@ per shape: TLC checks the spec's own invariants/action properties exhaustively i
 state graph, and the driver replays behaviours into pony. Disagreements are attributed to the property whose
 comparator found them (session.CATEGORIES); a check fails only for disagreements of its own property.
 """
+import json
 import multiprocessing
 import os
 import re
@@ -114,7 +115,7 @@ QUICK_SHAPES = {
     'C12': ['o2o_opt', 'm2m', 'mix_req_nocasc', 'o2m_opt'],
     'C13': ['o2m_req_nocasc', 'o2o_req', 'mix_req_nocasc', 'o2m_opt'],
     'C14': ['o2m_opt', 'o2o_opt', 'm2m', 'o2m_req_casc'],
-    'C15': ['o2m_req_casc', 'o2m_req_nocasc', 'o2o_req_casc', 'mix_req_nocasc'],
+    'C15': ['o2m_req_casc', 'o2m_req_nocasc', 'o2o_req_casc', 'mix_req_nocasc', 'o2o_opt_childcasc'],
     'C16': ['o2m_req_casc', 'o2m_opt', 'o2o_req', 'm2m'],
     'C23': ['o2m_opt', 'o2o_opt', 'm2m'],
 }
@@ -138,6 +139,7 @@ def run(ctx, prop, shapes=None, strategies=('default',), focus=None):
     agg = {}
     nontrivial = {}
     others = {}
+    other_list = []
     for r in results:
         if 'machinery' in r:
             raise MachineryError('shape %s: %s' % (r['shape'], r['machinery']))
@@ -162,9 +164,16 @@ def run(ctx, prop, shapes=None, strategies=('default',), focus=None):
                              {'shape': r['shape'], 'strategy': r['strategy'], 'trace': trace, 'what': what})
             else:
                 others[owner] = others.get(owner, 0) + 1
+                other_list.append({'signature': signature(owner, r['shape'], category, what), 'what': what, 'shape': r['shape'],
+                                   'strategy': r['strategy'], 'trace': trace})
         for tr in r['samples'][:1]:
             ctx.sample({'shape': r['shape'], 'behaviour': tr})
     if others:
+        # kept for diagnosis: the owning property's own check decides them
+        from .core import OUT_DIR
+        os.makedirs(OUT_DIR, exist_ok=True)
+        with open(os.path.join(OUT_DIR, '%s-others.json' % prop), 'w') as f:
+            json.dump(other_list, f, indent=1, default=list)
         print('note: disagreements attributed to other properties in this run (not counted here): %r' % others)
     rule = {
         'C09': 'behaviours containing a successful commit/end after which the database file was dumped and compared',
